@@ -10,7 +10,9 @@ from ..runner import Env, Outcome, Violation
 THEOREMS = ["C31_active_steps", "C31_timeout_tick", "C31_cancel_tick", "C31_drain_timeout", "C31_drain_cancel",
             "C31_nothing_after_end", "C31_finished_never_timed_out", "C31_timeout_only_after_deadline",
             "C31_halt_timeout_only_by_timeout_tick", "C31_cancel_keeps_serialised_context",
-            "C31_immediate_retry_buffered", "C31_buffer_drained_before_mailbox", "C31_requeue_tick_held"]
+            "C31_immediate_retry_buffered", "C31_buffer_drained_before_mailbox", "C31_requeue_tick_held",
+            "C31_rebuild_rewinds_first", "C31_rebuild_base_starts_pending", "C31_stopped_state_is_replay_of_log",
+            "C31_rebuilt_context_is_run_state"]
 EXPLANATION = (
     "Lean: the timeout tick publishes WorkflowTimedOutEvent naming exactly the steps with an in-progress invocation and halts with "
     "`timeout`, keeping queues/in-progress/buffers/waiters; the cancel tick publishes WorkflowCancelledEvent and halts with "
@@ -28,7 +30,17 @@ EXPLANATION = (
     "with the cancel delivered in the very instant the gate opens (scheduler option gate+ext); oracle independent of the engine "
     "state: from the step bodies' own enter/exit records, every invocation that was executing at the cancel, or whose last "
     "execution failed with the spec's policy granting an immediate retry, must be executed again by the resumed run (a retry "
-    "waiting out a positive delay is the recorded finding C12/pending_retry_timer_lost and only counted)."
+    "waiting out a positive delay is the recorded finding C12/pending_retry_timer_lost and only counted). Every generation: "
+    "ctx.to_dict() rebuilds the state from the run's START state and its tick log (model `rebuildAt`: rewind always, then every "
+    "tick at the current clock); a context left with pending work comes back with queue entries and nothing in progress, and the "
+    "rewound base has that work in progress (C31_rebuild_base_starts_pending); from the rewound start state -- fresh or the context "
+    "of an earlier stop -- the log replays to the live state at every point of every schedule (C31_stopped_state_is_replay_of_log, "
+    "C31_rebuilt_context_is_run_state under an unmoved clock). Tie: the real rebuild_state_from_ticks on each generation's start "
+    "state and adapter log against `rebuildAt` (driver op `rebuild`). Search: chains of 2-3 stop/resume rounds (cancel_run at "
+    "scheduler-chosen points, also in the instant a gate opens, or the workflow timeout; external events and to_dict() calls in "
+    "between) over pipelines with gated/sleeping/retrying stages and the general families: after every stop ctx.to_dict() must "
+    "succeed and equal the state the stopped run was left in, and the next generation must execute, or still hold, every "
+    "invocation that was executing (bodies' records) or pending (live state) at the stop."
 )
 ASSUMPTIONS = suite.ENGINE_ASSUMPTIONS + [
     "delivery of CancelledError into running step bodies and executor threads of sync steps is asyncio's; covered only by the monitors (no step entry after the end)",
@@ -195,16 +207,223 @@ def _cancel_resume(env: Env, out: Outcome, n: int, gen=_general_spec, label: str
                                                 f"never executed again for that event (resumed run ended as {tr2.outcome[0]}); {held}", case))
 
     # the resumed runs against the runner LTS (rinit without a start event: timer heap, buffer, workers, stream, commands per tick)
-    suite.runner_corr(out, resumed, "engine-runner-resumed")
+    suite.runner_corr(out, resumed, "engine-runner-resumed", rebuild=True)
     # the cancelled runs whose cancel was delivered together with a gate opening: worker result and cancel tick in front of the loop at once
     suite.runner_corr(out, firsts, "engine-runner-cancel-race")
+
+
+# --------------------------------------------------------------------------
+# chains of stop/resume rounds ("generations")
+
+
+def _pending_in_state(tr) -> list[tuple]:
+    """(step, uid) of everything queued or in progress in the LIVE reducer state the run ended with (not in what
+    ctx.to_dict() rebuilt from the tick log)"""
+    rc = [c for c in tr.calls if c.after is not None and c.caller in ("run", "_process_tick")]
+    pending: list[tuple] = []
+    if rc:
+        for nm, ws in rc[-1].after.workers.items():
+            pending += [(nm, getattr(ip.event, "uid", None)) for ip in ws.in_progress if getattr(ip.event, "uid", None) is not None]
+            pending += [(nm, getattr(a.event, "uid", None)) for a in ws.queue if getattr(a.event, "uid", None) is not None]
+    return pending
+
+
+def _context_vs_run_state(tr, snap: dict) -> str | None:
+    """the context written by ctx.to_dict() after the run was stopped against the state the stopped run was left in
+    (the reducer state after its last tick, serialised by the same to_serialized): queues, in-progress tables, buffers,
+    waiters, is_running -- timestamps and the user store aside"""
+    import json
+
+    from workflows.context.serializers import JsonSerializer
+
+    rc = [c for c in tr.calls[: snap["at_call"]] if c.after is not None and c.caller in ("run", "_process_tick")]
+    if not rc:
+        return None
+
+    def strip(d: dict) -> dict:
+        d = json.loads(json.dumps(d, default=str))
+        for w in d.get("workers", {}).values():
+            for a in list(w.get("queue", [])) + list(w.get("collected_waiters", [])):
+                a["first_attempt_at"] = None
+                a["last_failed_at"] = None
+        d.pop("state", None)
+        return d
+
+    want = strip(rc[-1].after.to_serialized(JsonSerializer()).model_dump(mode="python"))
+    got = strip(snap["dict"])
+    if want == got:
+        return None
+    import re
+
+    def uids(entries: list) -> list:
+        return [int(m.group(1)) if (m := re.search(r'uid\W+(\d+)', json.dumps(e))) else "?" for e in entries]
+
+    diffs = []
+    for nm in sorted(set(want.get("workers", {})) | set(got.get("workers", {}))):
+        a, b = want.get("workers", {}).get(nm, {}), got.get("workers", {}).get(nm, {})
+        if a != b:
+            diffs.append(f"{nm}: run had events {uids(a.get('queue', []))} queued / {uids(a.get('in_progress', []))} in progress, "
+                         f"context has {uids(b.get('queue', []))} queued / {uids(b.get('in_progress', []))} in progress")
+    if want.get("is_running") != got.get("is_running"):
+        diffs.append(f"is_running: run {want.get('is_running')}, context {got.get('is_running')}")
+    return "; ".join(diffs)[:400] or "differs outside the worker tables"
+
+
+def _gen_plan(rng: random.Random, spec: dict) -> list[dict]:
+    """2..3 stop/resume rounds followed by a last generation that is left alone.  Each round: how the run is stopped
+    (cancel_run at a scheduler-chosen quiet point, sometimes in the instant a gate opens; or the workflow timeout), events
+    sent from outside during that generation, ctx.to_dict() calls on the live handler (resumed generations)."""
+    consumed = sorted({t for s_ in spec["steps"] for t in s_["accepts"] if t not in (0, 4)}) or [5]
+    plan = []
+    rounds = rng.choice([2, 2, 3])
+    for g in range(rounds + 1):
+        item: dict = {"sends": [], "snapshots": []}
+        if g < rounds:
+            if rng.random() < 0.75:
+                item["stop"] = {"op": "cancel", "after_quiet": rng.choice([0, 1, 1, 2, 2, 3, 4])}
+                if rng.random() < 0.2:
+                    item["stop"]["with_gate"] = rng.choice(["after", "before"])
+            else:
+                item["timeout"] = rng.choice([1, 2, 4])
+        elif rng.random() < 0.5:
+            item["timeout"] = rng.choice([10, 30])
+        for _ in range(rng.choice([0, 0, 1, 2])):
+            item["sends"].append({"op": "send", "ty": rng.choice(consumed + [3]), "k": rng.choice([None, 1, 2]), "step": None,
+                                  "after_quiet": rng.randint(0, 3)})
+        if g > 0 and rng.random() < 0.4:
+            item["snapshots"].append({"op": "snapshot", "after_quiet": rng.randint(0, 4)})
+        plan.append(item)
+    return plan
+
+
+def _gen_chain_spec(rng: random.Random) -> dict:
+    if rng.random() < 0.6:
+        spec = specgen.gen_pipeline_spec(rng)
+    else:
+        spec = specgen.gen_spec(rng, allow_timeout=False, family=rng.choice(["general", "fanin", "retry", "wait"]))
+        spec["externals"] = [e for e in spec.get("externals", []) if e["op"] == "send"]
+    spec.pop("timeout", None)
+    return spec
+
+
+def _generations(env: Env, out: Outcome, n: int, extra: tuple = (), label: str = "generations") -> None:
+    """cancel_run / timeout while work is in progress, queued or absent -> ctx.to_dict() -> Context.from_dict -> run, two
+    or three times in a row: the run that is stopped in round 2, 3 is itself a resumed run whose restarted work has
+    (partly) completed.  After EVERY stop: the terminal event/outcome rules (mon_c31); ctx.to_dict() succeeds and
+    describes the state the stopped run was left in; the next generation starts from it and executes every invocation
+    that was executing (step bodies' own records) or pending (live reducer state) at the stop -- or still holds it."""
+    rng = random.Random(env.rng.randrange(1 << 30))
+    jobs = []
+    if env.replay is not None and isinstance(env.replay.get("payload", {}).get("case"), dict) and "generations" in env.replay["payload"]["case"]:
+        c = env.replay["payload"]["case"]["generations"]
+        jobs.append((c["spec"], c["seed"], c["plan"], c.get("actions")))
+    for item in extra:
+        c = item["generations"]
+        jobs.append((c["spec"], c["seed"], c["plan"], c.get("actions")))
+    for _ in range(n):
+        spec = _gen_chain_spec(rng)
+        jobs.append((spec, rng.randrange(1 << 30), _gen_plan(rng, spec), None))
+    traces: list = []
+    for spec, seed, plan, actions in jobs:
+        out.evaluations += 1
+        case = {"generations": {"spec": spec, "seed": seed, "plan": plan, "actions": []}}
+        carried: list = list(spec.get("externals", []))
+        prev_dict = None
+        prev = None  # (trace, pending, owed, stop kind) of the generation before
+        for g, item in enumerate(plan):
+            sg = copy.deepcopy(spec)
+            sg["externals"] = copy.deepcopy([e for e in carried if e["op"] == "send"] + item.get("sends", []) + item.get("snapshots", []))
+            if item.get("stop") is not None:
+                sg["externals"].append(copy.deepcopy(item["stop"]))
+            sg.pop("timeout", None)
+            if item.get("timeout") is not None:
+                sg["timeout"] = item["timeout"]
+            sg["snapshot_after_end"] = True
+            if g > 0:
+                sg["_resumed"] = g
+            a = actions[g] if actions is not None and g < len(actions) else None
+            tr = live.run_spec(sg, seed=seed + g, replay_actions=a, resume_from=prev_dict)
+            case["generations"]["actions"].append(tr.actions)
+            traces.append(tr)
+            kind = tr.outcome[0]
+            gtag = "first_run" if g == 0 else "resumed_run"
+            out.count(f"{label}:gen{g}:outcome:{kind}")
+            for v in monitors.mon_c31(tr):
+                v.replay = case
+                out.violations.append(v)
+            if kind == "invalid":
+                how = prev[3] if prev is not None else "cancel"
+                out.violations.append(Violation(f"C31/resume_after_{how}_failed" + (":second_resume" if g > 1 else ""),
+                                                f"generation {g}: Context.from_dict/run on the context left by the {how} raised: {tr.outcome[1]!r}", case))
+                break
+            # to_dict() on the live handler of a run that was resumed from a stopped context
+            for note in tr.notes:
+                if note.startswith("snapshot failed"):
+                    out.violations.append(Violation(f"C31/context_not_serialisable_while_running:{gtag}",
+                                                    f"generation {g}: ctx.to_dict() on the live handler raised ({note})", case))
+            # what the generation before left pending must have been executed by now, or still be held
+            pending = _pending_in_state(tr)
+            entered = {(r[1], r[2]) for r in tr.steps if r[0] == "enter"}
+            if prev is not None:
+                ptr, ppending, powed, phow = prev
+                ended_early = kind in ("result", "error", "timeout")
+                n_done = 0
+                for key, why in [(p, "pending") for p in ppending] + [(k, w) for k, w, _x in powed if w != "retry_after_delay"]:
+                    if key in entered:
+                        n_done += 1
+                        continue
+                    if ended_early or key in pending or phow != "cancel":
+                        continue
+                    sig = {"pending": "C31/pending_invocation_not_resumed", "in_progress": "C31/started_invocation_not_resumed:in_progress_at_cancel",
+                           "retry_due_at_once": "C31/started_invocation_not_resumed:immediate_retry_pending_at_cancel"}[why]
+                    out.violations.append(Violation(sig + (":after_resumed_run" if g > 1 else ""),
+                                                    f"generation {g - 1} was ended by cancel_run with the invocation {key} "
+                                                    f"{'executing' if why == 'in_progress' else 'queued or in progress' if why == 'pending' else 'owed an immediate retry'}; "
+                                                    f"generation {g} (ctx.to_dict -> Context.from_dict -> run) never executed it and does not hold it any more "
+                                                    f"(it ended as {kind})", case))
+                out.count(f"{label}:gen{g}:restarted_work_executed:{min(n_done, 3)}")
+                if phow != "cancel":
+                    out.count(f"{label}:after_timeout:carried_over:{'all' if all(k in entered or k in pending for k in ppending) else 'not_all'}")
+            if kind not in ("cancelled", "timeout"):
+                break
+            how = "cancel" if kind == "cancelled" else "timeout"
+            done_inside = sum(1 for r in tr.steps if r[0] == "exit" and r[5].get("status") == "ok")
+            out.count(f"{label}:stop:{how}:{gtag}:pending:{min(len(pending), 3)}:completed_inside:{min(done_inside, 3)}")
+            if g > 0 and done_inside:
+                out.nontrivial((label, repr(spec), repr(plan), tuple(map(tuple, case['generations']['actions']))))
+            snaps = [s_ for s_ in tr.snapshots if s_.get("after_end")]
+            if not snaps:
+                why_ = "; ".join(x for x in tr.notes if x.startswith("snapshot after end failed"))[:300]
+                out.violations.append(Violation(f"C31/context_not_serialisable_after_{how}:{gtag}",
+                                                f"generation {g} ({'a run resumed from a stopped context' if g else 'a fresh run'}) was ended by {how} with {len(pending)} invocation(s) "
+                                                f"pending ({done_inside} step execution(s) had completed inside it); ctx.to_dict() on the context it left raised: {why_}", case))
+                break
+            # (policies that look at elapsed time decide differently when the log is replayed on a later clock: outside the
+            # guard of C11_time_erasure_statement, the comparison is not made for them)
+            elapsed_pol = any((s_.get("retry") or {}).get("kind") == "delay" for s_ in spec["steps"])
+            diff = None if elapsed_pol else _context_vs_run_state(tr, snaps[0])
+            if elapsed_pol:
+                out.count(f"{label}:context_vs_run_state:skipped(elapsed-time policy)")
+            if diff is not None:
+                out.violations.append(Violation(f"C31/serialised_context_differs_from_run_state:after_{how}:{gtag}",
+                                                f"generation {g} was ended by {how}; the context written by ctx.to_dict() afterwards does not describe the state the run was left in: {diff}", case))
+            if g + 1 >= len(plan):
+                break
+            prev = (tr, pending, _unfinished_invocations(tr), how)
+            prev_dict = snaps[0]["dict"]
+            carried = list(getattr(tr, "remaining_externals", []))
+    # every generation against the runner LTS (resumed ones: rinit without a start event from the deserialised context)
+    # ... and what ctx.to_dict() computes from each generation's start state and tick log against the model's `rebuildAt`
+    suite.runner_corr(out, traces, "engine-runner-generations", rebuild=True)
 
 
 def run(env: Env) -> Outcome:
     out = Outcome()
     out.rule = ("live: general/retry/wait workflows with timeouts and cancels at scheduler-chosen quiet points; cancel_resume: cancel, ctx.to_dict -> JSON, "
                 "Context.from_dict, run again; cancel_race: zero-delay (and some positive-delay) retry policies, attempts failing behind a gate, the cancel "
-                "delivered together with a gate opening; non-trivial = more than 2 ticks / work pending or owed at the cancel; distinct by (spec, schedule)")
+                "delivered together with a gate opening; generations: 2-3 stop/resume rounds in a row (cancel / timeout / external events / to_dict in "
+                "between) over pipelines and the general families; non-trivial = more than 2 ticks / work pending or owed at the cancel / a stopped "
+                "resumed run inside which restarted work had completed; distinct by (spec, schedule)")
 
     def with_end(spec: dict, rng: random.Random) -> dict:
         r = rng.random()
@@ -221,6 +440,8 @@ def run(env: Env) -> Outcome:
     _cancel_resume(env, out, env.budget(100, 2000), extra=tuple(suite.load_corpus("C31/cancel_resume")))
     # the cancel arriving in the instant an attempt of a retried step fails (immediate retries mostly)
     _cancel_resume(env, out, env.budget(80, 1500), gen=_race_spec, label="cancel_race", replay=False)
+    # two or three stop/resume rounds in a row: the stopped run is itself a resumed run whose restarted work went on
+    _generations(env, out, env.budget(120, 2400), extra=tuple(suite.load_corpus("C31/generations")))
     # a finishing step whose sibling needs a while to unwind from its cancellation, with the deadline inside that window
     # (fractional times: outside the integral-time runner correspondence, monitors only)
     rng = random.Random(env.rng.randrange(1 << 30))
